@@ -34,7 +34,7 @@ Definition w_ts_cfg : ts_config := {| ts_type_mappings := [(lit "Url", lit "stri
 Definition w_kt_cfg : kt_config :=
   {| kt_package := lit "com.x"; kt_module_name := []; kt_prefix := lit "OP"; kt_type_mappings := []; kt_no_version_header := false; kt_version := lit "1.0.0" |}.
 Definition w_go_cfg : go_config :=
-  {| go_package := lit "proto"; go_type_mappings := []; go_uppercase_acronyms := []; go_no_version_header := false;
+  {| go_package := lit "proto"; go_type_mappings := []; go_uppercase_acronyms := [lit "id"; lit "url"]; go_no_version_header := false;
      go_no_pointer_slice := false; go_version := lit "1.0.0" |}.
 
 (* Scala, a package name without a dot: the generated text closes a brace that nothing opened *)
@@ -111,10 +111,10 @@ Lemma lex_scala (uc : unicode) (cfg : sc_config) (pd : parsed) (text : str) :
   c10_sc_cfg_ok cfg = true -> dom_C10 CSC pd = true -> c10_scala_brace_class (sc_package cfg) pd = false ->
   sc_generate uc cfg pd = Ok text -> good_C10_lex CSC text = true.
 Proof. intros Hcfg Hdom Hcls H. exact (sc_generate_balanced uc cfg Hcfg pd text Hdom Hcls H). Qed.
-Lemma lex_go_partial (uc : unicode) (cfg : go_config) (pd : parsed) (text : str) :
-  unicode_ok uc -> c10_go_cfg_ok cfg = true -> go_uppercase_acronyms cfg = [] -> dom_C10 CGO pd = true ->
+Lemma lex_go (uc : unicode) (cfg : go_config) (pd : parsed) (text : str) :
+  unicode_ok uc -> c10_go_cfg_ok cfg = true -> dom_C10 CGO pd = true ->
   go_generate uc cfg pd = Ok text -> good_C10_lex CGO text = true.
-Proof. intros Huc Hcfg Hacr Hdom H. exact (go_generate_balanced uc Huc cfg Hcfg Hacr pd text Hdom H). Qed.
+Proof. intros Huc Hcfg Hdom H. exact (go_generate_balanced uc Huc cfg Hcfg pd text Hdom H). Qed.
 Lemma lex_swift (uc : unicode) (cfg : sw_config) (pd : parsed) (text : str) :
   c10_sw_cfg_ok cfg = true -> dom_C10 CSW pd = true -> sw_generate uc cfg pd = Ok text -> good_C10_lex CSW text = true.
 Proof. intros Hcfg Hdom H. exact (sw_generate_balanced uc cfg Hcfg pd text Hdom H). Qed.
